@@ -5,6 +5,7 @@
 set -u
 D=$(readlink -f "$1"); shift; PROPS="$@"
 WT=/tmp/wt_seed_$$
+BASE=$(git -C /repo rev-parse --short HEAD)
 git -C /repo worktree add -q --detach "$WT" HEAD || exit 3
 cd "$WT"
 PYTHONPATH="$WT" timeout 300 /venv/bin/python "$D/demo.py" > /tmp/seed_demo_clean_$$.txt 2>&1; DC=$?
@@ -19,4 +20,4 @@ for P in $PROPS; do
   RES="$RES{\"prop\":\"$P\",\"exit\":$RC,\"lines\":\"$OUT\"},"
 done
 git -C /repo worktree remove --force "$WT"
-echo "{\"dir\":\"$D\",\"applies\":true,\"demo_clean_exit\":$DC,\"demo_mutant_exit\":$DM,\"tests_exit\":$TS,\"tests\":\"$TL\",\"checks\":[${RES%,}]}"
+echo "{\"dir\":\"$D\",\"base\":\"$BASE\",\"applies\":true,\"demo_clean_exit\":$DC,\"demo_mutant_exit\":$DM,\"tests_exit\":$TS,\"tests\":\"$TL\",\"checks\":[${RES%,}]}"
